@@ -495,6 +495,8 @@ def case_reject(kind, api, what, res):
       def f(a='da', x='dx'):
         return (a, x)
       return put(f, fresh('rfn'))
+    if what == 'class_with_method':
+      return c_with_method()   # its method is already registered on its own
     return c_init()
   first = mk()
   nm = fresh('taken')
@@ -524,6 +526,7 @@ def case_reject(kind, api, what, res):
     kw['allowlist'] = 'a'
   before_reg = dict(cfg._REGISTRY._selector_map)
   before_inv = dict(cfg._INVERSE_REGISTRY)
+  before_renamed = dict(cfg._RENAMED_SELECTORS)
   before_vars = dict(vars(obj))
   try:
     if api == 'external_configurable':
@@ -539,7 +542,8 @@ def case_reject(kind, api, what, res):
   if out == 'accepted':
     res.violation('invalid_registration_accepted:' + kind, '%r: registration accepted' % (desc,), desc)
     return
-  if dict(cfg._REGISTRY._selector_map) != before_reg or dict(cfg._INVERSE_REGISTRY) != before_inv:
+  if (dict(cfg._REGISTRY._selector_map) != before_reg or dict(cfg._INVERSE_REGISTRY) != before_inv or
+      dict(cfg._RENAMED_SELECTORS) != before_renamed):
     res.violation('rejected_registration_registered', '%r: rejected (%s) but the registry changed' % (desc, out), desc)
     return
   if dict(vars(obj)) != before_vars:
@@ -619,7 +623,7 @@ def gen(tier):
     yield ['callable', kind, api, form, scope]
   for shape, api, form, scope in itertools.product(CLASSES, APIS, FORMS, SCOPES):
     yield ['class', shape, api, form, scope]
-  for kind, api, what in itertools.product(REJECTIONS, APIS, ['fn', 'class']):
+  for kind, api, what in itertools.product(REJECTIONS, APIS, ['fn', 'class', 'class_with_method']):
     yield ['reject', kind, api, what]
   for api, how in itertools.product(APIS, ['context', 'context_exception', 'explicit']):
     yield ['interactive', api, how]
